@@ -124,13 +124,13 @@ func (a *AliasMangler) Unmangle(sf reflect.StructField, fvs []FieldValueTuple) (
 		return reflect.Value{}, fmt.Errorf("expected 1 or 2 tuples, got %d", len(fvs))
 	}
 
-	if !fvs[0].Value.IsNil() && !fvs[1].Value.IsNil() {
+	if !aliasUnset(fvs[0].Value) && !aliasUnset(fvs[1].Value) {
 		return reflect.Value{}, fmt.Errorf("both alias and original set for field %q", sf.Name)
 	}
 
 	// return the first one that isn't nil
 	for _, fv := range fvs {
-		if !fv.Value.IsNil() {
+		if !aliasUnset(fv.Value) {
 			return fv.Value, nil
 		}
 	}
@@ -144,4 +144,17 @@ func (a *AliasMangler) Unmangle(sf reflect.StructField, fvs []FieldValueTuple) (
 // fields get iterated over after any transformation done by Mangle().
 func (a AliasMangler) ShouldRecurse(_ reflect.StructField) bool {
 	return true
+}
+
+// aliasUnset reports whether nothing was supplied under one of a field's two
+// names. Fields are pointerified (nil means unset) except inside the elements
+// of slices and arrays of structs, where a field keeps its own type and the
+// zero value stands for "unset".
+func aliasUnset(v reflect.Value) bool {
+	switch v.Kind() {
+	case reflect.Ptr, reflect.Map, reflect.Slice, reflect.Interface, reflect.Chan, reflect.Func:
+		return v.IsNil()
+	default:
+		return v.IsZero()
+	}
 }
